@@ -214,6 +214,15 @@ Print Assumptions C20_gateway_untrusted.
 
 (* the looked-up domain is the forwarded host iff the sender is trusted (or no list is
    configured) and the first entry of the header is not blank; otherwise it is Host *)
+(* the same for a peer without an address (request.remote.ip = None, a UNIX-socket peer):
+   untrusted unless the configured list names None itself *)
+Theorem C20_gateway_addressless : forall urljoin domains l r x,
+  remote_ip r = None -> ~ In None l ->
+  on_request urljoin domains (Some l) (set_xfh r x) = on_request urljoin domains (Some l) r
+  /\ domain (Some l) r = host r.
+Proof. exact addressless_untrusted. Qed.
+Print Assumptions C20_gateway_addressless.
+
 Theorem C20_gateway_rule : forall tg r,
   (is_trusted tg (remote_ip r) /\ forwarded r <> [] -> domain tg r = forwarded r)
   /\ (~ (is_trusted tg (remote_ip r) /\ forwarded r <> []) -> domain tg r = host r).
@@ -272,10 +281,10 @@ Proof. vm_compute. reflexivity. Qed.
 
 (* gateway 9 configured; X-Forwarded-Host "B" from address 8 is ignored, from 9 honoured *)
 Example C20_ex_gateway :
-  (on_request (fun a b => a ++ b) [([97], [120]); ([98], [121])] (Some [[57]])
-     {| remote_ip := [56]; host := [97]; xfh := [66]; path := [47; 112] |},
-   on_request (fun a b => a ++ b) [([97], [120]); ([98], [121])] (Some [[57]])
-     {| remote_ip := [57]; host := [97]; xfh := [66]; path := [47; 112] |})
+  (on_request (fun a b => a ++ b) [([97], [120]); ([98], [121])] (Some [Some [57]])
+     {| remote_ip := Some [56]; host := [97]; xfh := [66]; path := [47; 112] |},
+   on_request (fun a b => a ++ b) [([97], [120]); ([98], [121])] (Some [Some [57]])
+     {| remote_ip := Some [57]; host := [97]; xfh := [66]; path := [47; 112] |})
   = ([47; 120; 47; 112], [47; 121; 47; 112]).
 Proof. vm_compute. reflexivity. Qed.
 
@@ -301,4 +310,16 @@ Example C20_ex_digest_md5_sess :
                     (s_response, [97; 58; 82; 58; 112; 58; 110; 58; 99; 58; 110; 58; 49; 58; 99; 58] ++ s_auth ++ [58; 71; 69; 84; 58; 47])])
     default_enc (Some (s_digest ++ [32; 120])) [71; 69; 84] [82] (table_of [([97], [112])])
   = Authd [97].
+Proof. vm_compute. reflexivity. Qed.
+
+(* an address-less peer (remote.ip = None, a UNIX socket) with gateways [9] / [] configured is ignored;
+   only a list that names None trusts it *)
+Example C20_ex_gateway_addressless :
+  (on_request (fun a b => a ++ b) [([97], [120]); ([98], [121])] (Some [Some [57]])
+     {| remote_ip := None; host := [97]; xfh := [66]; path := [47; 112] |},
+   on_request (fun a b => a ++ b) [([97], [120]); ([98], [121])] (Some [])
+     {| remote_ip := None; host := [97]; xfh := [66]; path := [47; 112] |},
+   on_request (fun a b => a ++ b) [([97], [120]); ([98], [121])] (Some [None])
+     {| remote_ip := None; host := [97]; xfh := [66]; path := [47; 112] |})
+  = ([47; 120; 47; 112], [47; 120; 47; 112], [47; 121; 47; 112]).
 Proof. vm_compute. reflexivity. Qed.
